@@ -84,6 +84,8 @@ def make_content(rng, opts=None):
              evlab=[rstr(rng, rng.choice([1, 2, 4])) if i < nev else b'' for i in range(18)],
              npoints=npoints, nchan=nchan, nsub=nsub, frames=frames, prate=prate, arate=arate,
              empty_analog=empty_analog)
+    # header words 148-150 (key labels present, their first block, four-character event labels): not derivable from anything
+    c['keywords'] = o.get('keywords', rng.choice([(0, 0, 12345), (0, 0, 12345), (12345, 4, 0), (0, 0, 0), (1, 65535, 12345), (12345, 2, 12345)]))
     return c
 
 def rand_param_rec(rng, gid, name=None):
@@ -125,7 +127,7 @@ def expected_dump(layout, c):
     h = dict(zeros=L['zeros'], paddr=L['paddr'], chk=80, npts=c['npoints'], nmeas=c['nchan'] * c['nsub'],
              first=(c['first'] - 1) % 2**64, last=((c['first'] + nfr - 1) & 0xFFFF) - 1 if ((c['first'] + nfr - 1) & 0xFFFF) else 2**64 - 1,
              gap=c['gap'], byframe=c['nsub'], rate=c['rate'], nev=c['nev'], evtime=c['evtime'], evdisp=c['evdisp'],
-             evlab=[x.split(b'\x00')[0] for x in c['evlab']], four=12345)
+             evlab=[x.split(b'\x00')[0] for x in c['evlab']], keylab=c.get('keywords', (0, 0, 12345))[0], keyblk=c.get('keywords', (0, 0, 12345))[1], four=c.get('keywords', (0, 0, 12345))[2])
     sb = c['scale_bits']; h['scale'] = sb - 2**32 if sb >= 2**31 else sb
     plab = None; alab = None
     for e in g.values():
@@ -164,7 +166,7 @@ def diff_dump(snap, exp):
     """components on which a loaded object (parsed dump) differs from the expected content"""
     h, groups, frames = exp
     bad = []
-    for k in ('zeros', 'paddr', 'chk', 'npts', 'nmeas', 'first', 'last', 'gap', 'scale', 'byframe', 'rate', 'nev', 'four'):
+    for k in ('zeros', 'paddr', 'chk', 'npts', 'nmeas', 'first', 'last', 'gap', 'scale', 'byframe', 'rate', 'nev', 'keylab', 'keyblk', 'four'):
         if snap.h[k] != h[k]: bad.append('hdr.%s loaded=%r file=%r' % (k, snap.h[k], h[k]))
     if snap.h['evtime'] != h['evtime']: bad.append('hdr.event_times')
     if snap.h['evdisp'] != h['evdisp']: bad.append('hdr.event_display')
